@@ -305,7 +305,7 @@ pub fn l3_unique_case(delta: u64, seed: u64, l: &mut Local) {
 
 /// L1 under late wake-ups: nothing past its expiry is shown in a newly built event.
 pub fn l1_case(seed: u64, l: &mut Local) {
-    set_overrides(Some(Overrides { stepping: Some(Stepping::Oversleep(if seed % 2 == 0 { 3000 } else { 800 })), record_gates: false, snapshot_level: 0, jitter_const: None, send_cost_ms: None }));
+    set_overrides(Some(Overrides { stepping: Some(Stepping::Oversleep(if seed % 2 == 0 { 3000 } else { 800 })), record_gates: false, snapshot_level: 0, jitter_const: None, send_cost_ms: None, no_loop: false }));
     let made = c17::scenario(seed, None);
     set_overrides(None);
     l.evaluations += 1;
